@@ -1,14 +1,23 @@
 import RreModel.Proto
 import RreModel.C11.Spec
+import RreModel.C11.Engine
 /-
 Driver for C11.  obs := item;item;…  item := `<q|a|k>/<key>/<answer>/<fresh>/<hit>[/<flags>]` (see harness/src/bin/c11.rs;
   the key is opaque here — hex of the text, or a digest of it for large stores; flags classify the input situation:
   `N` negated goal, `n` negation partner asked earlier on identical facts, `p` same query earlier on permuted facts, `L` engine key
   text > 1024 bytes, `c` same query earlier on facts that differ only behind byte 1024 of the engine key text, `E` an aggregate
   call that returns Err, `e` asked after an aggregate call failed on this engine, `w` an earlier call's engine key text differs
-  from this one's only in whitespace, `z` same query earlier on facts that differ only in entries holding Null)
-  drv_c11 model  : case       ↦ `-` (the search is an abstract parameter of the model; the cache model is run in
-                                 oracle mode on the observed keys with the observed fresh verdicts as `answer`)
+  from this one's only in whitespace, `z` same query earlier on facts that differ only in entries holding Null, `R` a RETE engine is
+  attached to the call, `T` facts were retracted in the attached engine earlier)
+  item (since the engine model): a 7th field `<facts after the call>` (c09's rendering; `?` when a fact outside its universe is present)
+  drv_c11 model  : case       ↦ the engine model (`RreModel/C11/Engine.lean`: memo cache + `C09.queryFast` + the code's candidate
+                                 computation) run over the whole history: the SET of admissible histories of
+                                 `<answer>:<hit>:<facts after>` items (`;`-separated, one per Q/A/E op), one per choice of the
+                                 enumeration orders of the top-level candidate HashSets, joined by ` || `; `many-orders` when a
+                                 candidate set has > 4 rules or > 64 histories are admissible; the prediction STOPS (last item `*`)
+                                 at the first op outside the modelled class (negated goals `N`, Null literals, extra facts `P` `X`)
+                                 and is `-` when configuration / initial facts / rules are outside the C09 grammar (Null,
+                                 exists(..)): there the fresh-engine comparison and the cache model (oracle mode) stay alone
   drv_c11 oracle : case | obs ↦ `ok <tags>` / `fail stale@<k>` (answer ≠ fresh engine's) / `fail cache-model@…`
 -/
 open Proto C11
@@ -26,6 +35,7 @@ def parseItem (s : String) : Option Item :=
   match s.splitOn "/" with
   | [k, key, a, f, h] => some ⟨k != "q", k = "a", key, a, f, h = "1", ""⟩
   | [k, key, a, f, h, fl] => some ⟨k != "q", k = "a", key, a, f, h = "1", fl⟩
+  | [k, key, a, f, h, fl, _after] => some ⟨k != "q", k = "a", key, a, f, h = "1", fl⟩
   | _ => none
 
 def memoOf (cfg : String) : Bool := cfg.endsWith "m1"
@@ -66,13 +76,235 @@ def oracleLine (line : String) : String :=
               ++ (if items.any (fun it => it.flags.contains 'e' && it.flags.contains 'N') then ["negated_goal_after_failed_aggregate"] else [])
               ++ (if items.any (·.flags.contains 'w') then ["whitespace_lookalike_key"] else [])
               ++ (if items.any (·.flags.contains 'z') then ["requery_absent_vs_null"] else [])
+              ++ (if items.any (·.flags.contains 'R') then ["rete_attached"] else [])
+              ++ (if items.any (·.flags.contains 'T') then ["asked_after_rete_retraction"] else [])
               ++ (if distinctAns > 1 then ["answer_changes", "nontrivial"] else []))
       | none => "bad-input"
     | _ => "bad-input"
   | _ => "bad-input"
 
+
+/-! ### model mode: the engine model over the whole history (case grammar of harness/src/bin/c09.rs for configuration, facts,
+atoms and rules — the parsing glue below repeats Driver/C09.lean's, which is an executable root and cannot be imported) -/
+namespace Hist
+open C09
+
+def fieldNames : List String := ["A", "B", "C", "D", "E", "G", "X", "Y", "U.P", "U.Q", "E._return"]
+def nFields : Nat := 11
+def returnField (f : Nat) : Option Nat := if f = 4 then some 10 else none
+def fieldName (i : Nat) : String := (fieldNames[i]?).getD "?"
+def unBlank (s : String) : String := s.map fun c => if c = '_' then ' ' else c
+def reBlank (s : String) : String := s.map fun c => if c = ' ' then '_' else c
+
+def parseElem (s : String) : Option Elem :=
+  if s = "t" then some (.bool true) else if s = "f" then some (.bool false)
+  else if s.startsWith "n" then (s.drop 1).toString.toInt?.map .num
+  else if s.startsWith "i" then (s.drop 1).toString.toInt?.map .int
+  else if s.startsWith "s" then some (.str (unBlank (s.drop 1).toString))
+  else none
+
+def showElem : Elem → String
+  | .bool true => "t" | .bool false => "f"
+  | .num n => s!"n{n}" | .int n => s!"i{n}" | .str s => "s" ++ reBlank s
+
+def parseVal (s : String) : Option Val :=
+  if s = "t" then some (.bool true) else if s = "f" then some (.bool false)
+  else if s.startsWith "n" then (s.drop 1).toString.toInt?.map .num
+  else if s.startsWith "i" then (s.drop 1).toString.toInt?.map .int
+  else if s.startsWith "s" then some (.str (unBlank (s.drop 1).toString))
+  else if s = "a" then some (.arr [])
+  else if s.startsWith "a" then ((s.drop 1).toString.splitOn "^").mapM parseElem |>.map .arr
+  else if s.startsWith "o" then (s.drop 1).toString.toInt?.map .obj
+  else none
+
+def showVal : Val → String
+  | .bool true => "t" | .bool false => "f"
+  | .num n => s!"n{n}" | .int n => s!"i{n}" | .str s => "s" ++ reBlank s
+  | .arr l => "a" ++ "^".intercalate (l.map showElem)
+  | .obj n => s!"o{n}"
+
+def parseField (s : String) : Option Nat :=
+  if s.startsWith "F" then (s.drop 1).toString.toNat?.bind fun i => if i < nFields then some i else none else none
+
+def parseCmp (s : String) : Option Cmp :=
+  if s = "eq" then some .eq else if s = "ne" then some .ne else if s = "gt" then some .gt
+  else if s = "lt" then some .lt else if s = "ge" then some .ge else if s = "le" then some .le else none
+
+def parseAtom (s : String) : Option Atom :=
+  match s.splitOn "." with
+  | [f, o, v] => do pure { field := ← parseField f, op := ← parseCmp o, val := ← parseVal v }
+  | _ => none
+
+def parseCondToks : Nat → List String → Option (Cond × List String)
+  | 0, _ => none
+  | _ + 1, [] => none
+  | fuel + 1, t :: rest =>
+    if t = "&" || t = "/" then do
+      let (l, r1) ← parseCondToks fuel rest
+      let (r, r2) ← parseCondToks fuel r1
+      pure (if t = "&" then .and l r else .or l r, r2)
+    else do
+      let a ← parseAtom t
+      pure (.atom a, rest)
+
+def parseAct (s : String) : Option Act :=
+  match s.splitOn ":=" with
+  | [f, v] => do pure (.set (← parseField f) (← parseVal v))
+  | _ =>
+    match s.splitOn "<<" with
+    | [f, e] => do pure (.append (← parseField f) (← parseElem e))
+    | _ =>
+      match s.splitOn "$" with
+      | [f, n] =>
+        if n = "g" then do
+          let o ← parseField f
+          pure (.get o (← returnField o))
+        else do pure (.call (← parseField f) (← n.toInt?))
+      | _ => if s.endsWith "!" then (parseField (s.dropEnd 1).toString).map .retract else none
+
+def splitActs : List Act → List (Nat × Val) × List Act
+  | .set f v :: rest => let r := splitActs rest; ((f, v) :: r.1, r.2)
+  | l => ([], l)
+
+def parseRule (s : String) : Option Rule :=
+  match s.splitOn "~" with
+  | [c, a] => do
+    let toks := c.splitOn ","
+    let (cond, rest) ← parseCondToks (toks.length + 1) toks
+    if !rest.isEmpty then none
+    else
+      let all ← (a.splitOn "+").mapM parseAct
+      let (acts, more) := splitActs all
+      pure { cond := cond, acts := acts, more := more }
+  | _ => none
+
+def insertFact (e : Nat × Val) : Facts → Facts
+  | [] => [e]
+  | x :: xs => if e.1 < x.1 then e :: x :: xs else if e.1 = x.1 then e :: xs else x :: insertFact e xs
+
+def parseFactList (s : String) : Option (List (Nat × Val)) :=
+  if s = "-" then some []
+  else (s.splitOn ",").mapM fun kv =>
+    match kv.splitOn "=" with
+    | [k, v] => do pure ((← parseField k), (← parseVal v))
+    | _ => none
+
+def showFacts (l : Facts) : String :=
+  if l.isEmpty then "-" else ",".intercalate (l.map fun (k, v) => s!"F{k}={showVal v}")
+
+def parseStrategy (s : String) : Option Strategy :=
+  if s.startsWith "D" then some .dfs else if s.startsWith "B" then some .bfs
+  else if s.startsWith "I" then some .iterative else none
+
+/-- `<D|B|I><depth>s<max_solutions>m<0|1>` -/
+def parseCfg (s : String) : Option C11.Config := do
+  let st ← parseStrategy s
+  match (s.drop 1).toString.splitOn "s" with
+  | [d, mm] =>
+    match mm.splitOn "m" with
+    | [m, memo] => pure ⟨st, ← d.toNat?, ← m.toNat?, memo = "1"⟩
+    | _ => none
+  | _ => none
+
+def tieNames : Naming := ⟨fieldName, ruleNameR⟩
+
+def perms : List Nat → List (List Nat)
+  | [] => [[]]
+  | xs => xs.flatMap fun x => (perms (xs.erase x)).map (x :: ·)
+termination_by xs => xs.length
+decreasing_by
+  simp_wf
+  rename_i h
+  simp [List.length_erase_of_mem h]
+  cases xs with
+  | nil => simp at h
+  | cons _ _ => simp
+
+/-- one op of the history as steps of the engine model; `none` = outside the modelled class.
+The query travels as text: an Integer literal means the Number the query parser produces (`reparse`). -/
+def parseOp (cfg : C11.Config) (facts : Facts) (op : String) : Option (List (C11.Step Atom) ⊕ Atom × Bool) :=
+  let rest := (op.drop 1).toString
+  if op.startsWith "Q" then (parseAtom rest).map fun a => .inr (reparse a, false)
+  else if op.startsWith "A" then (parseAtom rest).map fun a => .inr (reparse a, true)
+  else if op.startsWith "S" then
+    (parseFactList rest).map fun kvs => .inl [.setFacts (kvs.foldl (fun acc e => insertFact e acc) facts)]
+  else if op.startsWith "D" then
+    (parseField rest).map fun k => .inl [.setFacts (facts.filter fun e => e.1 != k)]
+  else if op.startsWith "K" then do
+    let st ← parseStrategy rest
+    let d ← (rest.drop 1).toString.toNat?
+    pure (.inl [.setConfig { cfg with strategy := st, maxDepth := d }])
+  else if op.startsWith "E" then (rest.toNat?).bind fun k => if k < 8 then some (.inl [.badAggregate]) else none
+  -- `R` attach a RETE engine / `T` retract there: nothing of the engine model's state is touched, and the search with the
+  -- attachment hands back what it hands back without (the proof graph is built per search; see RreModel/C11/Engine.lean)
+  else if op = "R" || op = "T" then some (.inl [])
+  else none
+
+/-- a state of the exploration: engine, caller's facts, items handed back so far (reversed) -/
+abbrev XState := C11.Eng (Atom × Nat × Facts) × Facts × List String
+
+def sameX (a b : XState) : Bool :=
+  a.1.cfg == b.1.cfg && a.1.cache == b.1.cache && a.2.1 == b.2.1 && a.2.2 == b.2.2
+
+def dedupX (l : List XState) : List XState :=
+  l.foldl (fun acc x => if acc.any (sameX x) then acc else acc ++ [x]) []
+
+def showItem (agg : Bool) (o : C11.Out) : String :=
+  (if agg then s!"i{o.count}" else if o.verdict then "1" else "0") ++ ":" ++ (if o.hit then "1" else "0") ++ ":" ++ showFacts o.after
+
+def modelLine (line : String) : String :=
+  match tokens line with
+  | [cfgS, initS, rulesS, opsS] =>
+    match parseCfg cfgS, parseFactList initS, (if rulesS = "-" then some [] else (rulesS.splitOn ";").mapM parseRule) with
+    | some cfg, some init, some kb =>
+      let W := C11.World.code tieNames kb nFields
+      let S := C11.fastSearch W
+      let stepF := C11.engineStep S nFields C11.keyCode
+      let f0 : Facts := init.foldl (fun acc e => insertFact e acc) []
+      -- fold over the ops, carrying the set of admissible states (`none` = too many) and whether an op outside the
+      -- modelled class was met: the prediction stops there (`*`), the calls before it are predicted
+      let go : Option (List XState) × Bool → String → Option (List XState) × Bool := fun acc op =>
+        match acc with
+        | (_, true) => acc
+        | (none, false) => if (parseOp cfg [] op).isSome then acc else (none, true)
+        | (some states, false) =>
+          -- every state carries its own configuration and facts
+          let next := states.mapM fun (x : XState) =>
+            match parseOp x.1.cfg x.2.1 op with
+            | none => none
+            | some (.inl steps) =>
+              let s' := steps.foldl (fun (s : C11.HState _) st => (stepF s st).1) (x.1, x.2.1)
+              let item := if op.startsWith "E" then ["e:0:" ++ showFacts x.2.1] else []
+              some (some [((s'.1, s'.2, item ++ x.2.2) : XState)])
+            | some (.inr (g, agg)) =>
+              let cands := W.top g
+              if cands.length > 4 then some none
+              else some (some ((perms cands).map fun order =>
+                let r := stepF (x.1, x.2.1) (if agg then .aggregate g (fun _ => order) else .query g (fun _ => order))
+                match r.2 with
+                | some o => ((r.1.1, r.1.2, showItem agg o :: x.2.2) : XState)
+                | none => ((r.1.1, r.1.2, x.2.2) : XState)))
+          match next with
+          | none => (some states, true)
+          | some rs =>
+            if rs.any Option.isNone then (none, false)
+            else
+              let all := dedupX (rs.flatMap fun r => r.getD [])
+              if all.length > 64 then (none, false) else (some all, false)
+      match (opsS.splitOn ",").foldl go (some [((C11.Eng.new cfg, f0, []) : XState)], false) with
+      | (none, _) => "many-orders"
+      | (some states, stopped) =>
+        let outs := (states.map fun x =>
+          let items := x.2.2.reverse ++ (if stopped then ["*"] else [])
+          if items.isEmpty then "-" else ";".intercalate items).eraseDups
+        " || ".intercalate outs
+    | _, _, _ => "-"
+  | _ => "bad-case"
+
+end Hist
+
 def main (args : List String) : IO Unit :=
   match args with
-  | ["model"] => mapLines (fun _ => "-")
+  | ["model"] => mapLines Hist.modelLine
   | ["oracle"] => mapLines oracleLine
   | _ => IO.eprintln "usage: drv_c11 model|oracle"
